@@ -161,8 +161,9 @@ impl Worker {
                 Err(RecvTimeoutError::Disconnected) => {
                     let status = self.child.wait().ok();
                     let tail = self.stderr_tail();
-                    if tail.contains("HARNESS") {
+                    if tail.contains("HARNESS:") {
                         eprintln!("{}", tail);
+                        eprintln!("HARNESS: worker reported a harness defect; aborting the check");
                         std::process::exit(2);
                     }
                     let (kind, detail) = classify_death(status, &tail);
